@@ -1,7 +1,7 @@
 (** C11 — pipelines and command substitutions move all data, in order, without deadlock
     (partial: theorems about the transition-system model of brush's pipeline algorithm).
     Only pinned statements, [exact], and [Print Assumptions]. *)
-From BV Require Import Base.Prelude Conc.Pipe Conc.Sched Conc.SchedProofs Conc.Deadlock Conc.Known Conc.Status.
+From BV Require Import Base.Prelude Conc.Pipe Conc.Sched Conc.SchedProofs Conc.Deadlock Conc.Known Conc.Kahn Conc.Status.
 
 (** On every schedule, for every pipe: read ++ in-flight = written (order kept, nothing lost
     or duplicated), and the buffer stays within the capacity. Any stage kinds, any capacity. *)
@@ -10,6 +10,20 @@ Theorem c11_fifo_integrity : forall (A : Type) (C : nat) (sgs : list (stage A)) 
   Forall (fun p : pipe A => hw p = hr p ++ buf p /\ (length (buf p) <= C)%nat) (pipes s).
 Proof. exact fifo_integrity. Qed.
 Print Assumptions c11_fifo_integrity.
+
+(** Safety of the data path: on every schedule, at every moment, what has reached the pipeline's
+    stdout is a prefix of [spec_out] (the composition of the stages' stream functions). *)
+Theorem c11_output_prefix : forall (A : Type) (C : nat) (sgs : list (stage A)) (s : state A),
+  sgs <> [] -> reach C (init sgs) s -> prefix (out s) (spec_out A sgs).
+Proof. exact output_prefix. Qed.
+Print Assumptions c11_output_prefix.
+
+(** Completeness: every reachable final state — any schedule, any stage kinds, stages ended early by
+    EPIPE included — has delivered exactly [spec_out]. *)
+Theorem c11_output_complete : forall (A : Type) (C : nat) (sgs : list (stage A)) (s : state A),
+  sgs <> [] -> reach C (init sgs) s -> final s -> out s = spec_out A sgs.
+Proof. exact output_complete. Qed.
+Print Assumptions c11_output_complete.
 
 (** If no stage but the last is executed inline, no reachable unfinished state is stuck —
     every payload, every capacity >= 1, every interleaving and split of reads and writes. *)
@@ -97,6 +111,10 @@ Theorem c11_nonvacuous :
   exists s, reach 2 (init ex_cfg) s /\ final s /\ out s = [0; 1]%nat /\ sts s = [0; 141; 0]%nat.
 Proof. exact ex_nonvacuous. Qed.
 Print Assumptions c11_nonvacuous.
+
+Theorem c11_spec_out_example : spec_out nat ex_cfg = [0; 1]%nat /\ spec_out nat dl_cfg = [0; 1; 2]%nat.
+Proof. split; reflexivity. Qed.
+Print Assumptions c11_spec_out_example.
 
 (** The refutation witness lies in the class; pipelines with a bounded inline stage do not. *)
 Theorem c11_known_examples :
